@@ -18,8 +18,14 @@ def main(args):
         if d["obligation"].startswith("_invert_expression"):
             print(json.dumps(write_inference.replay(d["obligation"], d.get("model")), indent=1, default=str))
             return 0
-    r = viewcheck.run("C03", args, ["UInt", "Int", "Bcd", "Flag", "Float", "Enum"], ["write"], keep=keep, functions=FUNCS,
-                      more_jobs=cpp_views.bcdwide_jobs())
+    import os, shutil
+    from vlib.llvc import corpus
+    inc = corpus.generate_headers(["basic.emb"], os.path.join(core.VERIF, "corpus"))
+    try:
+        r = viewcheck.run("C03", args, ["UInt", "Int", "Bcd", "Flag", "Float", "Enum"], ["write"], keep=keep, functions=FUNCS,
+                          more_jobs=cpp_views.bcdwide_jobs() + corpus.vwrite_jobs("corpus.specs", inc))
+    finally:
+        shutil.rmtree(inc, ignore_errors=True)
     if isinstance(r, int):
         return r
     # E1: write_inference._invert_expression (alias / add-subtract virtual fields store the value that reads back v)
@@ -28,6 +34,8 @@ def main(args):
     for ob in r.obligations[n0:]:
         if ob.verdict == core.REFUTED:
             ob.replay = write_inference.replay(ob.name, ob.model)
+    r.function("generated write methods of corpus virtual fields (Virt.shifted: add/subtract transform, Virt.alias_x: alias)",
+               "llvc: generated header vs reference semantics (stores the inverse, reads back v, frame), all buffers and all candidates of the C++ value type")
     r.function("compiler.front_end.write_inference._invert_expression", "pyvc: loop-invariant step lemma on the real loop body + whole function to depth 3")
     r.assume(*core.STANDING_ASSUMPTIONS["E1"])
     r.assume("_invert_expression: the unbounded statement is the induction over the path using the proved step lemma (paper step); ir_data constructors are modelled as record construction")
